@@ -7,11 +7,11 @@ C09 / C15: square roots, `get_point_from_x`, the compressed point encoding and t
   given abscissa with the requested sign bit; every curve point is reachable from its own abscissa and sign bit.
 * compressed round trip `decode (encode P) = P` (validating and not), and canonicity: validating decode accepts exactly
   the encoder's output (`decodeChecked = decodeCanonical` in both forms).
-* the marshalling round trips built on them.  NOTE: the unmarshalling side (`unmarshalParams`, `unmarshalKey`,
-  `unmarshalCt`, `unmarshalSig`, `unmarshalMsk`, `fq12OfBytes`, and `marshalCt`/`marshalSig`/`marshalMsk`) is DEFINED in
-  this file (section `Unmarshal`), mirroring the readers of `Driver/Judge6.lean`; `Impl/Marshal.lean` only has the
-  marshalling side of parameters and keys.  Moving these definitions to `Impl/Marshal.lean` (and letting the judge use
-  them) would tie them to the C++ by the correspondence check.
+* the marshalling round trips built on them.  The unmarshalling models (`unmarshalParams`, `unmarshalKey`,
+  `unmarshalCt`, `unmarshalSig`, `unmarshalMsk`, `fq12OfBytes`, and `marshalCt`/`marshalSig`/`marshalMsk`) are defined
+  in `Impl/Marshal.lean`; the differential judge (`Driver/Judge6.lean`) parses marshalled buffers with exactly those
+  definitions (over `canonicalDecoders`, proved here to give the same results as `checkedDecoders`), which ties them
+  to the C++ by the correspondence check.
 Closed facts (q mod 4, non-cube tests `(−b)^((|K|−1)/3) ≠ 1`, …) are checked by kernel evaluation.
 -/
 import JediVerif.Proofs.FqTower
@@ -873,140 +873,14 @@ end Jedi.Impl
 namespace Jedi.Impl
 open Jedi Jedi.Wk
 
-/-! ## Unmarshalling models (src/wkdibe/marshal.cpp `…::unmarshal`, with `setLength`) and the round trips
+/-! ## The unmarshalling models (src/wkdibe/marshal.cpp `…::unmarshal`, with `setLength`): round trips
 
-The unmarshalling side is modelled here (it is not part of `Impl/Marshal.lean`): the readers are parameterised by the
-point decoders (`Encoding::decode` with the caller's `checked` flag) and by the pairing (compressed parameters do not
-carry `e(g2, g1)`; `Params::unmarshal` recomputes it). -/
+The models themselves (`takeN`, `readG1`, …, `unmarshalParams`, …, `Decoders`, `libDecoders`, `checkedDecoders`,
+`canonicalDecoders`) are DEFINED in `Impl/Marshal.lean` and are the ones the differential judge executes against the
+real code (`Driver/Judge6.lean`); here are the theorems about them.  The readers are parameterised by the point
+decoders (`Encoding::decode` with the caller's `checked` flag) and by the pairing (compressed parameters do not carry
+`e(g2, g1)`; `Params::unmarshal` recomputes it). -/
 section Unmarshal
-
-/-- `Fq12::read_big_endian`: twelve 48-byte big-endian coefficients, most significant component first. -/
-def fq12OfBytes (bs : List UInt8) : Fq12 :=
-  let c := fun i => fqOfBytes48 ((bs.drop (48 * i)).take 48)
-  ⟨⟨⟨c 11, c 10⟩, ⟨c 9, c 8⟩, ⟨c 7, c 6⟩⟩, ⟨⟨c 5, c 4⟩, ⟨c 3, c 2⟩, ⟨c 1, c 0⟩⟩⟩
-
-structure WCiphertext where
-  a : Fq12
-  b : G2Pt
-  c : G1Pt
-
-structure WSignature where
-  a0 : G1Pt
-  a1 : G2Pt
-
-/-- what the readers are parameterised by: `Encoding<G1Affine, comp>::decode(·, checked)`,
-`Encoding<G2Affine, comp>::decode(·, checked)` (first argument: compressed form?), and the pairing. -/
-structure Decoders where
-  dec1 : Bool → List UInt8 → Option G1Pt
-  dec2 : Bool → List UInt8 → Option G2Pt
-  pair : G1Pt → G2Pt → Fq12
-
-def takeN (n : Nat) (bs : List UInt8) : Option (List UInt8 × List UInt8) :=
-  if bs.length < n then none else some (bs.take n, bs.drop n)
-
-variable (D : Decoders) (comp : Bool)
-
-def readG1 (bs : List UInt8) : Option (G1Pt × List UInt8) :=
-  match takeN (g1Size comp) bs with
-  | none => none
-  | some (c, rest) => match D.dec1 comp c with | none => none | some p => some (p, rest)
-
-def readG2 (bs : List UInt8) : Option (G2Pt × List UInt8) :=
-  match takeN (g2Size comp) bs with
-  | none => none
-  | some (c, rest) => match D.dec2 comp c with | none => none | some p => some (p, rest)
-
-def readG1s : Nat → List UInt8 → Option (List G1Pt × List UInt8)
-  | 0, bs => some ([], bs)
-  | k+1, bs =>
-    match readG1 D comp bs with
-    | none => none
-    | some (p, rest) => match readG1s k rest with | none => none | some (ps, rest') => some (p :: ps, rest')
-
-/-- `FreeSlot::unmarshal`, l times: the element, then the 32-bit big-endian index. -/
-def readSlots : Nat → List UInt8 → Option (List (Nat × G1Pt) × List UInt8)
-  | 0, bs => some ([], bs)
-  | k+1, bs =>
-    match readG1 D comp bs with
-    | none => none
-    | some (p, rest) =>
-      match takeN 4 rest with
-      | none => none
-      | some (ib, rest2) =>
-        match readSlots k rest2 with | none => none | some (ps, rest') => some ((ofBytesBE ib, p) :: ps, rest')
-
-def marshalCt (ct : WCiphertext) : List UInt8 := fq12Bytes ct.a ++ encG2 comp ct.b ++ encG1 comp ct.c
-def marshalSig (s : WSignature) : List UInt8 := encG1 comp s.a0 ++ encG2 comp s.a1
-def marshalMsk (m : G1Pt) : List UInt8 := encG1 comp m
-
-/-- `setLength` + `Params::unmarshal`; `none` = length refused or a decode failed. -/
-def unmarshalParams (bs : List UInt8) : Option WParams :=
-  match unLen true comp (firstByte bs) bs.length with
-  | none => none
-  | some l =>
-  let sg := firstByte bs != 0
-  match readG2 D comp (bs.drop 1) with
-  | none => none
-  | some (g, r1) =>
-  match readG2 D comp r1 with
-  | none => none
-  | some (g1, r2) =>
-  match readG1 D comp r2 with
-  | none => none
-  | some (g2, r3) =>
-  match readG1 D comp r3 with
-  | none => none
-  | some (g3, r4) =>
-  match (if comp then some (D.pair g2 g1, r4) else
-          match takeN 576 r4 with | none => none | some (b, r) => some (fq12OfBytes b, r)) with
-  | none => none
-  | some (pairing, r5) =>
-  match (if sg then readG1 D comp r5 else some (Pt.inf, r5)) with
-  | none => none
-  | some (hsig, r6) =>
-  match readG1s D comp l r6 with
-  | none => none
-  | some (h, _) => some { g := g, g1 := g1, g2 := g2, g3 := g3, pairing := pairing, hsig := hsig, signatures := sg, h := h }
-
-/-- `setLength` + `SecretKey::unmarshal`. -/
-def unmarshalKey (bs : List UInt8) : Option WKey :=
-  match unLen false comp (firstByte bs) bs.length with
-  | none => none
-  | some l =>
-  let sg := firstByte bs != 0
-  match readG1 D comp (bs.drop 1) with
-  | none => none
-  | some (a0, r1) =>
-  match readG2 D comp r1 with
-  | none => none
-  | some (a1, r2) =>
-  match (if sg then readG1 D comp r2 else some (Pt.inf, r2)) with
-  | none => none
-  | some (bsig, r3) =>
-  match readSlots D comp l r3 with
-  | none => none
-  | some (b, _) => some { a0 := a0, a1 := a1, signatures := sg, bsig := bsig, b := b }
-
-def unmarshalCt (bs : List UInt8) : Option WCiphertext :=
-  match takeN 576 bs with
-  | none => none
-  | some (ab, r1) =>
-  match readG2 D comp r1 with
-  | none => none
-  | some (b, r2) =>
-  match readG1 D comp r2 with
-  | none => none
-  | some (c, _) => some { a := fq12OfBytes ab, b := b, c := c }
-
-def unmarshalSig (bs : List UInt8) : Option WSignature :=
-  match readG1 D comp bs with
-  | none => none
-  | some (a0, r1) =>
-  match readG2 D comp r1 with
-  | none => none
-  | some (a1, _) => some { a0 := a0, a1 := a1 }
-
-def unmarshalMsk (bs : List UInt8) : Option G1Pt := (readG1 D comp bs).map (·.1)
 
 /-! ### reader lemmas -/
 
@@ -1014,7 +888,7 @@ theorem takeN_append {n : Nat} (xs ys : List UInt8) (h : xs.length = n) : takeN 
   unfold takeN
   rw [if_neg (by rw [List.length_append]; omega), List.take_left' h, List.drop_left' h]
 
-variable {D comp}
+variable {D : Decoders} {comp : Bool}
 
 theorem readG1_append {p : G1Pt} (h : D.dec1 comp (encG1 comp p) = some p) (rest : List UInt8) :
     readG1 D comp (encG1 comp p ++ rest) = some (p, rest) := by
@@ -1204,14 +1078,9 @@ theorem unmarshalMsk_marshalMsk (D : Decoders) (comp : Bool) (m : G1Pt)
 def validG1 (p : G1Pt) : Prop := Pt.isOnCurve g1B p = true ∧ inSubgroup p = true
 def validG2 (p : G2Pt) : Prop := Pt.isOnCurve g2B p = true ∧ inSubgroup p = true
 
-/-- `Encoding::decode(·, checked)` of the library as modelled in `Impl/Encode.lean` … -/
-def libDecoders (checked : Bool) (pair : G1Pt → G2Pt → Fq12) : Decoders :=
-  { dec1 := fun comp bs => decode opsFq inSubgroup comp checked bs,
-    dec2 := fun comp bs => decode opsFq2 inSubgroup comp checked bs, pair := pair }
-
-/-- … and the repaired validating decode (with `coordinate_is_canonical`). -/
-def checkedDecoders (pair : G1Pt → G2Pt → Fq12) : Decoders :=
-  { dec1 := decodeChecked opsFq inSubgroup, dec2 := decodeChecked opsFq2 inSubgroup, pair := pair }
+-- `libDecoders checked pair` (`Encoding::decode(·, checked)` as modelled in `Impl/Encode.lean`), `checkedDecoders pair`
+-- (the repaired validating decode, with `coordinate_is_canonical`) and `canonicalDecoders pair` (what the judge runs
+-- the readers with) are defined in `Impl/Marshal.lean`.
 
 theorem libDecoders_dec1 (checked : Bool) (pair) (comp : Bool) {p : G1Pt} (h : validG1 p) :
     (libDecoders checked pair).dec1 comp (encG1 comp p) = some p :=
@@ -1392,4 +1261,144 @@ theorem unmarshalMsk_checked_iff (pair) (comp : Bool) (bs : List UInt8) (hl : bs
     exact unmarshalMsk_marshalMsk_valid (checkedDecoders_good pair) comp v
 
 end Objects
+end Jedi.Impl
+
+namespace Jedi.Impl
+open Jedi Jedi.Wk
+
+/-! ## The decoders the judge runs the readers with give the same results as the repaired validating decode
+
+`Driver/Judge6.lean` parses every marshalled buffer with the readers of `Impl/Marshal.lean` over `canonicalDecoders`
+(`decodeCanonical`, order test by the Jacobian `Pt.smulFast`).  On chunks of the size the readers cut out this is
+`decodeChecked` with the affine order test `inSubgroup`, so every reader returns the same value over
+`canonicalDecoders pair` and over `checkedDecoders pair`: the objects of the theorems above and of `Properties/C15b.lean`
+are the ones executed against the real code. -/
+section JudgeDecoders
+
+theorem decodeCanonical_congr {F : Type} (o : FieldOps F) {inSub inSub' : Pt F → Bool} (onC : Pt F → Bool)
+    (h : ∀ p, onC p = true → inSub p = inSub' p) (comp : Bool) (bs : List UInt8) :
+    decodeCanonical o inSub onC comp bs = decodeCanonical o inSub' onC comp bs := by
+  unfold decodeCanonical
+  split
+  · rfl
+  · rename_i p _
+    cases hc : onC p
+    · simp
+    · rw [h p hc]
+
+theorem canonicalDecoders_dec1 (pair : G1Pt → G2Pt → Fq12) (comp : Bool) (bs : List UInt8)
+    (hl : bs.length = g1Size comp) :
+    (canonicalDecoders pair).dec1 comp bs = (checkedDecoders pair).dec1 comp bs := by
+  show decodeCanonical opsFq (fun p => Pt.smulFast r p == .inf) (Pt.isOnCurve g1B) comp bs =
+    decodeChecked opsFq inSubgroup comp bs
+  rw [decodeChecked_eq_canonical_G1 comp bs hl]
+  refine decodeCanonical_congr opsFq _ (fun p hp => ?_) comp bs
+  show (Pt.smulFast r p == .inf) = (Pt.smul r p == .inf)
+  rw [smulFast_eq' fq_two_ne_zero hp]
+
+theorem canonicalDecoders_dec2 (pair : G1Pt → G2Pt → Fq12) (comp : Bool) (bs : List UInt8)
+    (hl : bs.length = g2Size comp) :
+    (canonicalDecoders pair).dec2 comp bs = (checkedDecoders pair).dec2 comp bs := by
+  show decodeCanonical opsFq2 (fun p => Pt.smulFast r p == .inf) (Pt.isOnCurve g2B) comp bs =
+    decodeChecked opsFq2 inSubgroup comp bs
+  rw [decodeChecked_eq_canonical_G2 comp bs hl]
+  refine decodeCanonical_congr opsFq2 _ (fun p hp => ?_) comp bs
+  show (Pt.smulFast r p == .inf) = (Pt.smul r p == .inf)
+  rw [smulFast_eq' Fq2.two_ne_zero hp]
+
+/-- two decoder records the readers cannot tell apart -/
+structure Decoders.Agree (D D' : Decoders) : Prop where
+  g1 : ∀ comp bs, readG1 D comp bs = readG1 D' comp bs
+  g2 : ∀ comp bs, readG2 D comp bs = readG2 D' comp bs
+  pair : D.pair = D'.pair
+
+theorem canonicalDecoders_agree (pair : G1Pt → G2Pt → Fq12) :
+    (canonicalDecoders pair).Agree (checkedDecoders pair) where
+  g1 comp bs := by
+    unfold readG1
+    cases ht : takeN (g1Size comp) bs with
+    | none => rfl
+    | some cr =>
+      obtain ⟨c, rest⟩ := cr
+      simp only
+      rw [canonicalDecoders_dec1 pair comp c (takeN_some ht).1]
+  g2 comp bs := by
+    unfold readG2
+    cases ht : takeN (g2Size comp) bs with
+    | none => rfl
+    | some cr =>
+      obtain ⟨c, rest⟩ := cr
+      simp only
+      rw [canonicalDecoders_dec2 pair comp c (takeN_some ht).1]
+  pair := rfl
+
+variable {D D' : Decoders}
+
+theorem readG1s_congr (h : D.Agree D') (comp : Bool) (k : Nat) (bs : List UInt8) :
+    readG1s D comp k bs = readG1s D' comp k bs := by
+  induction k generalizing bs with
+  | zero => rfl
+  | succ k ih =>
+    rw [readG1s, readG1s, h.g1]
+    simp only [ih]
+
+theorem readSlots_congr (h : D.Agree D') (comp : Bool) (k : Nat) (bs : List UInt8) :
+    readSlots D comp k bs = readSlots D' comp k bs := by
+  induction k generalizing bs with
+  | zero => rfl
+  | succ k ih =>
+    rw [readSlots, readSlots, h.g1]
+    simp only [ih]
+
+theorem unmarshalParams_congr (h : D.Agree D') (comp : Bool) (bs : List UInt8) :
+    unmarshalParams D comp bs = unmarshalParams D' comp bs := by
+  unfold unmarshalParams
+  simp only [h.g1, h.g2, h.pair, readG1s_congr h]
+
+theorem unmarshalKey_congr (h : D.Agree D') (comp : Bool) (bs : List UInt8) :
+    unmarshalKey D comp bs = unmarshalKey D' comp bs := by
+  unfold unmarshalKey
+  simp only [h.g1, h.g2, readSlots_congr h]
+
+theorem unmarshalCt_congr (h : D.Agree D') (comp : Bool) (bs : List UInt8) :
+    unmarshalCt D comp bs = unmarshalCt D' comp bs := by
+  unfold unmarshalCt
+  simp only [h.g1, h.g2]
+
+theorem unmarshalSig_congr (h : D.Agree D') (comp : Bool) (bs : List UInt8) :
+    unmarshalSig D comp bs = unmarshalSig D' comp bs := by
+  unfold unmarshalSig
+  simp only [h.g1, h.g2]
+
+theorem unmarshalMsk_congr (h : D.Agree D') (comp : Bool) (bs : List UInt8) :
+    unmarshalMsk D comp bs = unmarshalMsk D' comp bs := by
+  unfold unmarshalMsk
+  rw [h.g1]
+
+/-- **what the judge executes is what the theorems are about**: for every buffer, the readers over the judge's
+decoders return what they return over the repaired validating decode. -/
+theorem unmarshalParams_canonicalDecoders (pair : G1Pt → G2Pt → Fq12) (comp : Bool) (bs : List UInt8) :
+    unmarshalParams (canonicalDecoders pair) comp bs = unmarshalParams (checkedDecoders pair) comp bs :=
+  unmarshalParams_congr (canonicalDecoders_agree pair) comp bs
+theorem unmarshalKey_canonicalDecoders (pair : G1Pt → G2Pt → Fq12) (comp : Bool) (bs : List UInt8) :
+    unmarshalKey (canonicalDecoders pair) comp bs = unmarshalKey (checkedDecoders pair) comp bs :=
+  unmarshalKey_congr (canonicalDecoders_agree pair) comp bs
+theorem unmarshalCt_canonicalDecoders (pair : G1Pt → G2Pt → Fq12) (comp : Bool) (bs : List UInt8) :
+    unmarshalCt (canonicalDecoders pair) comp bs = unmarshalCt (checkedDecoders pair) comp bs :=
+  unmarshalCt_congr (canonicalDecoders_agree pair) comp bs
+theorem unmarshalSig_canonicalDecoders (pair : G1Pt → G2Pt → Fq12) (comp : Bool) (bs : List UInt8) :
+    unmarshalSig (canonicalDecoders pair) comp bs = unmarshalSig (checkedDecoders pair) comp bs :=
+  unmarshalSig_congr (canonicalDecoders_agree pair) comp bs
+theorem unmarshalMsk_canonicalDecoders (pair : G1Pt → G2Pt → Fq12) (comp : Bool) (bs : List UInt8) :
+    unmarshalMsk (canonicalDecoders pair) comp bs = unmarshalMsk (checkedDecoders pair) comp bs :=
+  unmarshalMsk_congr (canonicalDecoders_agree pair) comp bs
+
+/-- in particular the judge's decoders are `Good`: all the round-trip theorems apply to them. -/
+theorem canonicalDecoders_good (pair : G1Pt → G2Pt → Fq12) : (canonicalDecoders pair).Good where
+  g1 comp p h := by
+    rw [canonicalDecoders_dec1 pair comp _ (encG1_length comp p)]; exact checkedDecoders_dec1 pair comp h
+  g2 comp p h := by
+    rw [canonicalDecoders_dec2 pair comp _ (encG2_length comp p)]; exact checkedDecoders_dec2 pair comp h
+
+end JudgeDecoders
 end Jedi.Impl
